@@ -40,10 +40,17 @@ Theorem c19_compose : forall a b c : tag, convertible a b = true -> convertible 
 Proof. exact ratio_compose. Qed.
 Print Assumptions c19_compose.
 
-(* the printed name of every unit is CloudWatch's; distinct tags print distinct names *)
-Theorem c19_name : forall u : unit_, unit_name u = cloudwatch_name u.
+(* the printed name of every tag's unit is the one its Rust identifier promises - a name CloudWatch defines;
+   distinct tags print distinct names; a custom unit prints its own string *)
+Theorem c19_name : forall t : tag,
+  unit_name (tag_unit t) = spec_name_of_tag t /\ cloudwatch_name (tag_unit t) = spec_name_of_tag t /\
+  exists info, lookup (spec_name_of_tag t) cloudwatch_units = Some info.
 Proof. exact name_is_cloudwatch. Qed.
 Print Assumptions c19_name.
+
+Theorem c19_custom_name : forall n, unit_name (U_Custom n) = n /\ cloudwatch_name (U_Custom n) = n.
+Proof. exact custom_name. Qed.
+Print Assumptions c19_custom_name.
 
 Theorem c19_names_distinct : forall a b : tag, unit_name (tag_unit a) = unit_name (tag_unit b) -> a = b.
 Proof. exact names_distinct. Qed.
